@@ -211,7 +211,7 @@ func c20g2Authenticated(c *eng.Ctx) {
 				assume = nil
 			}
 			for _, g := range ct.guards {
-				c.Cut(f, sinkDesc+ifs(ct.when != "", " ("+ct.when+")"), sinks, nfGCallOK(f, g), assume)
+				c.Cut(f, sinkDesc+ifs(ct.when != "", " ("+ct.when+")"), sinks, c17GCallOK(f, g), assume)
 			}
 		}
 		// what is authenticated is the key rebuilt from the shares
@@ -378,7 +378,7 @@ func c20g2UnsealStops(c *eng.Ctx) {
 		key := eng.ResultValue(uf, 0)
 		c.Clause("R2", "C20.3")
 		all := append(instrsOf(sinks), instrsOf(k2r)...)
-		c.Cut(f, "root-key lookup / barrier unseal", all, nfGCallOK(f, `^vault\.\(\*SealManager\)\.unsealFragment$`), nil)
+		c.Cut(f, "root-key lookup / barrier unseal", all, c17GCallOK(f, `^vault\.\(\*SealManager\)\.unsealFragment$`), nil)
 		c.Cut(f, "root-key lookup / barrier unseal", all, c17guard("the threshold gate returned a key (unsealFragment()#0 != nil)", c17rel(f, true, c17is(key), eng.IsNilConst, false)), nil)
 		var direct []ssa.Instruction
 		for _, s := range sinks {
@@ -386,7 +386,7 @@ func c20g2UnsealStops(c *eng.Ctx) {
 				direct = append(direct, s)
 			}
 		}
-		c.Cut(f, "barrier unseal", direct, nfGCallOK(f, `^vault\.\(\*SealManager\)\.unsealKeyToRootKey$`), nil)
+		c.Cut(f, "barrier unseal", direct, c17GCallOK(f, `^vault\.\(\*SealManager\)\.unsealKeyToRootKey$`), nil)
 		c.Clause("R5", "C20.3")
 		var pv []c17pv
 		for _, k := range k2r {
